@@ -256,7 +256,7 @@ func Run(r *fw.Run) {
 	r.Merge(l)
 
 	// record encodings
-	ids := []int64{0, 1, 9, 10, 1<<63 - 1}
+	ids := []int64{0, 1, 9, 10, 1<<63 - 1, -1, -(1 << 62)}
 	tails := [][]byte{nil, []byte("x"), []byte("\n"), []byte("5\nz\n\n")}
 	enum.Strings(textAlpha, Lt, fw.Workers(), func(w int) (func([]byte, int), func()) {
 		l := fw.NewLocal()
